@@ -362,6 +362,13 @@ def serve_cases(ctx):
     return cases
 
 
+def _is_prefix(cmp, length):
+    """'BAD:want-<n>-first-difference-at-<k>': what arrived is a proper prefix of what was wanted iff k = its own length"""
+    import re
+    m = re.match(r'BAD:want-(\d+)-first-difference-at-(\d+)$', cmp)
+    return bool(m) and m.group(2) == str(length) and int(m.group(1)) > int(length)
+
+
 def run_serve(ctx, verdict, pid):
     broken = []
     cases = serve_cases(ctx)
@@ -389,15 +396,17 @@ def run_serve(ctx, verdict, pid):
         dlen, dok = o['down'].split(':', 1)
         why = None
         quiet = not c['ps'] and not c['pe']
-        if o['wedged'] == '1':
+        if o.get('cwfail') == '1' and not c['pe']:
+            why = 'a Write of the client on its healthy stream failed although the proxy side had not ended'
+        elif o['wedged'] == '1':
             why = 'the relay did not wind down (proxy connection not closed / bytes not delivered) within the patience of the driver'
         elif c['cc'] and quiet and gok != 'ok':
             why = 'the client wrote %d bytes and closed the stream, the proxy server stayed silent: the proxy connection was handed %s bytes (%s) before the relay closed it' % (nwant, glen, gok)
         elif not c['cc'] and not c['pe'] and (gok != 'ok' or dok != 'ok'):
             why = 'both sides stay open: proxy connection got %s, client got %s' % (o['got'], o['down'])
-        elif gok != 'ok' and not gok.startswith('BAD:want-%d-first-difference-at-%s' % (nwant, glen)):
+        elif gok != 'ok' and not _is_prefix(gok, glen):
             why = 'the proxy connection was handed bytes that are not a prefix of what the client wrote: ' + o['got']
-        elif dok != 'ok' and not dok.startswith('BAD:want-%d-first-difference-at-%s' % (sum(c['ps']), dlen)):
+        elif dok != 'ok' and not _is_prefix(dok, dlen):
             why = 'the client read bytes that are not a prefix of what the proxy server sent: ' + o['down']
         elif (c['cc'] or c['pe']) and (o['closed'] != '1' or o['cliEnd'] != '1'):
             why = 'one side ended but the relay did not close the %s' % ('proxy connection' if o['closed'] != '1' else 'stream towards the client')
@@ -407,7 +416,7 @@ def run_serve(ctx, verdict, pid):
                 verdict.oracle_failure('serve:' + why.split(':')[0][:70], '%s oracle (server.serveSession between a real Session pair and a harness-owned proxy connection, case "%s"): %s' % (pid, c['line'], why),
                                        dict(kind='relay-serve', case=c['line'], observed=g, how='go test -run TestVerifRelayServe with harness/server/relay_serve_test.go; gate=1: the dial is held until the client\'s writes and close have reached the server; the proxy connection lets a pending Close overtake a Write'))
         m = mod.get(c['id'])
-        if m is not None and (quiet or not c['pe']):
+        if m is not None and (quiet or not c['pe']) and o.get('cwfail') != '1':
             mo = _kv(m)
             mlen = 0 if mo['out'] == '-' else len(mo['out']) // 2
             mup = 0 if mo['up'] == '-' else len(mo['up']) // 2
